@@ -155,12 +155,14 @@ def run(chk, prop=PROP, props=PROPS, bias=''):
         depth[d] = depth.get(d, 0) + 1
     chk.cov['distribution'] = dict(root_kind=dist, tree_depth=depth, outcome_kinds=kinds,
                                    id_reused_runs=sum(1 for _c, r in results if r.get('id_reused')),
+                                   async_server_runs=sum(1 for c, _r in results if c.get('asyncsrv')),
                                    calls=sum(r.get('ncalls', 0) for _c, r in results),
                                    runs_with_batches_gt1=sum(1 for _c, r in results if any(b > 1 for b in r.get('batches', []))))
     chk.cov['rule'] = (
         'cases = generated servlet trees (depth <= 3; worker / sequential / ensemble fail_fast on+off / switch; 1-3 '
         'workers per servlet; batch_size 0/1/3; preprocess on/off; failure plans per site = sets of request numbers) '
-        '+ hand-picked boundary trees + the F2 scenario class, 2-6 caller threads mixing call and stream, '
+        '+ hand-picked boundary trees + the F2 scenario class, 2-6 callers mixing call and stream (threads against '
+        'Server; in 25% of the cases tasks of a cooperative event loop against AsyncServer), '
         'finite and unbounded timeouts, capacity 1-8, adversarial id allocator in 80% of the cases, service '
         'durations as scheduling-point loops, chooser portfolio (random / sticky / PCT, early timer firing); '
         'each case runs the real Server under the deterministic scheduler; every outcome is checked against '
